@@ -272,19 +272,23 @@ func main() {
 						shapes = append(shapes, Shape{ctx, pre, base})
 					}
 				}
+				for _, pre := range ExtraPreKinds {
+					shapes = append(shapes, Shape{ctx, pre, "val"})
+				}
 				continue
 			}
 			if nest == 3 && !thorough && rng.Intn(8) != 0 {
 				continue
 			}
-			pre := PreKinds[rng.Intn(len(PreKinds))]
+			allPre := append(append([]string{}, PreKinds...), ExtraPreKinds...)
+			pre := allPre[rng.Intn(len(allPre))]
 			base := "val"
 			if rng.Intn(5) == 0 {
 				base = BaseKinds[rng.Intn(len(BaseKinds))]
 			}
 			shapes = append(shapes, Shape{ctx, pre, base})
 			if thorough {
-				shapes = append(shapes, Shape{ctx, PreKinds[rng.Intn(len(PreKinds))], "val"})
+				shapes = append(shapes, Shape{ctx, allPre[rng.Intn(len(allPre))], "val"})
 			}
 		}
 	}
@@ -313,7 +317,8 @@ func main() {
 		for i := range ctx {
 			ctx[i] = CtxKinds[rng.Intn(len(CtxKinds))]
 		}
-		return Shape{ctx, PreKinds[rng.Intn(len(PreKinds))], "val"}
+		allPre := append(append([]string{}, PreKinds...), ExtraPreKinds...)
+		return Shape{ctx, allPre[rng.Intn(len(allPre))], "val"}
 	}
 	very = append(very, pick())
 	if thorough {
